@@ -24,8 +24,7 @@ ASSUMPTIONS = ['timestamps are whole seconds (exact in binary64); flapping thres
                'reachability is the one the fixture can express: one parent host behind a default Dependency (C07 decides reachability in general)',
                'next_check is an input: a recovering parent reschedules actively checked problem children to now + Utility::Random() % 60 (checkable-check.cpp:405-416); the generators script next_check explicitly after every parent recovery of an actively checked object',
                'liveness only as stated: release at a timer firing at which the four conditions hold; that the timer fires every 5 s is the runtime\'s',
-               'finding host-raw-state-release: theorems C02_release / C02_oracle_accepts_model restricted to services and to hosts whose results are OK or CRITICAL',
-               'finding volatile-soft-recovery: C02_request_rule excludes a volatile object going OK/Up from a soft or never-checked non-OK state']
+               'the two defects found here (host release by raw states, volatile Recovery from a soft state) are fixed in /repo (5e50b7a, b9a7cb5); the model follows the fixed code and the theorems carry no exception for them; the generators keep producing their shapes']
 
 
 def hdr(kind, mx, vol, flap=0, active=0, ci=300):
@@ -187,9 +186,10 @@ def generate(seed, tier):
     nrand = {'quick': 1000, 'thorough': 12000, 'search': 2500}.get(tier, 1000)
     for i in range(nrand):
         cases.append(random_case(rnd, rnd.randint(40, 200), 'random-long'))
-    # host-only stream with WARNING/UNKNOWN results inside suppression (aims at the raw-state comparison)
+    # host-only stream with WARNING/UNKNOWN results inside suppression (shape of the fixed defect 5e50b7a: release by raw-state comparison)
     for i in range(nrand // 5):
         cases.append(random_case(rnd, rnd.randint(40, 120), 'random-long-host', kind='host', mx=rnd.choice((1, 1, 2)), vol=0, flap=0))
+    # volatile objects with soft -> OK/Up transitions (shape of the fixed defect b9a7cb5)
     for i in range(nrand // 5):
         cases.append(random_case(rnd, rnd.randint(40, 120), 'random-long-volatile', vol=1, mx=rnd.choice((1, 2, 3, 4))))
     for i in range(nrand // 5):
